@@ -182,6 +182,34 @@ def annotation_programs(rng, n):
     return out
 
 
+def shadow_programs():
+    """every binder position of the language next to a live linear channel k, with k consumed directly / by a spawned call / by a spawned forward, before or
+    after the binder, and the binder spelled freshly, like k, or like a later binder: whether a binder may take the name of a channel that is still
+    owed a use is decided by Typing.tla (C05: no binder can silently discard, duplicate or shadow such a channel)"""
+    head = "type U = lin 1\nlet g(a : U) : U = wait a; close self\n"
+    consumes = ["wait k; ", "z <- new g(k); wait z; ", "z : U <- new (fwd self k); wait z; "]
+    sites = [
+        ("recvP-cont", "let f(k : U) : lin (1 -* 1) = %(pre)s<x, %(B)s> <- recv self; %(post)swait x; close self"),
+        ("recvP-pay", "let f(k : U) : lin (1 -* 1) = %(pre)s<%(B)s, y> <- recv self; %(post)swait %(B)s; close self"),
+        ("recvC-pay", "let f(k : U, c : lin (1 * 1)) : U = %(pre)s<%(B)s, r> <- recv c; %(post)swait %(B)s; wait r; close self"),
+        ("recvC-cont", "let f(k : U, c : lin (1 * 1)) : U = %(pre)s<p, %(B)s> <- recv c; %(post)swait p; wait %(B)s; close self"),
+        ("caseP", "let f(k : U) : lin &{a : 1} = %(pre)scase self ( a<%(B)s> => %(post)sclose self )"),
+        ("caseC", "let f(k : U, c : lin +{a : 1}) : U = %(pre)scase c ( a<%(B)s> => %(post)swait %(B)s; close self )"),
+        ("new", "let f(k : U) : U = %(pre)s%(B)s : U <- new close self; %(post)swait %(B)s; close self"),
+        ("split", "let f(k : U, c : rep 1) : U = %(pre)s<%(B)s, s2> <- split c; %(post)sdrop %(B)s; drop s2; close self"),
+        ("shiftP", "let f(k : U) : lin /\\ lin 1 = %(pre)s%(B)s <- shift self; %(post)sclose self"),
+        ("shiftC", "let f(k : U, c : lin \\/ lin 1) : U = %(pre)s%(B)s <- shift c; %(post)swait %(B)s; close self"),
+    ]
+    out = []
+    for sname, tpl in sites:
+        for ci, cons in enumerate(consumes):
+            for pos in ("pre", "post"):
+                for B in ("b", "k", "z"):
+                    text = head + tpl % {"B": B, "pre": cons if pos == "pre" else "", "post": cons if pos == "post" else ""} + "\n"
+                    out.append(("shadow/%s-%d-%s-%s" % (sname, ci, pos, B), text))
+    return out
+
+
 def corpus_texts(tier, seed):
     import rt
     texts = [(p["name"], p["text"]) for p in rt.fixed_corpus()]
@@ -216,6 +244,7 @@ def stage(tier=None, seed=None):
             except Exception:
                 pass
             texts += annotation_programs(rng, 240 if tier == "quick" else 3000)
+            texts += shadow_programs()
             muts = token_mutants(texts, rng, 700 if tier == "quick" else 10000)
             cases = cases_for(texts + muts)
             fails, errs, states = validate(cases, work)
